@@ -60,3 +60,21 @@ Example C07_source_assign_example :
   | Some s' => List.map (s' 1%nat 2%nat) (List.seq 0 8) = List.map (fun i => s0 1%nat 0%nat i + s0 1%nat 2%nat i) (List.seq 0 8) /\ List.map (s' 1%nat 0%nat) (List.seq 0 8) = List.map (s0 1%nat 0%nat) (List.seq 0 8)
   | None => False end.
 Proof. exact AssignSpec.source_assign_example. Qed.
+Print Assumptions C07_source_assign_add_avx2_u16.
+
+(* HOW AN EXPRESSION BECOMES A TREE.  The node each operator of ops.hpp builds is read from the source on every run (tools/cxxopnodes2coq.py ->
+   gen/GenOpNodes.v; serial and AVX2 builds): the tree of functors denoted by the TYPE of a + b, a - (b + c), (a + b) * c, (a + b) == (c - d), ...
+   (5 operators x 4 operand kinds) and of shoup(a * b, c), after checking that every construction function (the operator overloads, make_op,
+   _make_op::operator(), the shoup specialisation, expr's constructor) passes its operands on IN ORDER.  It is the tree the syntax says: the
+   operator's functor at the root, the operands' trees left and right -- what Expr.tree / ExprExec.tr assume. *)
+From NTT Require OpNodesSpec.
+From NTT.gen Require GenOpNodes.
+Theorem C07_source_op_nodes : OpNodesSpec.same OpNodesSpec.expected GenOpNodes.gen_op_nodes_serial = true /\ OpNodesSpec.same OpNodesSpec.expected GenOpNodes.gen_op_nodes_avx2 = true.
+Proof. exact OpNodesSpec.source_op_nodes. Qed.
+Print Assumptions C07_source_op_nodes.
+Theorem C07_source_op_node : forall e t, List.In (e, t) OpNodesSpec.expected -> List.In (e, t) GenOpNodes.gen_op_nodes_serial /\ List.In (e, t) GenOpNodes.gen_op_nodes_avx2.
+Proof. exact OpNodesSpec.source_op_node. Qed.
+Print Assumptions C07_source_op_node.
+From Coq Require Import String.
+Example C07_source_op_nodes_example : List.In ("(a + b) - (c - d)"%string, "submod(addmod(P, P), submod(P, P))"%string) OpNodesSpec.expected.
+Proof. vm_compute. tauto. Qed.
